@@ -103,6 +103,7 @@ def run_sharded(binary, cases, shards=NCPU, timeout=600, restart_on_exit=False, 
         lo, hi = lo_hi
         out = []
         pos = lo
+        restarts = 0
         while pos < hi:
             rc, lines, err = _run_tool(binary, "\n".join(cases[pos:hi]) + "\n", timeout, env)
             lines = [l for l in lines if l != ""]
@@ -111,6 +112,12 @@ def run_sharded(binary, cases, shards=NCPU, timeout=600, restart_on_exit=False, 
             if rc == 0: break
             if not restart_on_exit or len(lines) == 0:
                 raise RuntimeError("%s failed (rc=%d) after %d cases: %s" % (binary, rc, len(lines), err[-2000:]))
+            restarts += 1
+            if restarts >= 4 and pos < hi:
+                # the implementation keeps getting stuck (each stuck run costs a watchdog period): do not wait for every remaining
+                # case of this shard; report them as not run (verdict `aborted`), which every check treats as a failed observation
+                out.extend(["R aborted aborted F  U  M " if c.startswith("R ") else c.split(" ")[0] + " aborted" for c in cases[pos:hi]])
+                pos = hi
         if len(out) != hi - lo:
             raise RuntimeError("%s: %d outputs for %d cases" % (binary, len(out), hi - lo))
         return out
